@@ -114,6 +114,20 @@ Definition bb_thunk_pattern : list Z :=
    0xe9; 0; 0; 0; 0].                    (* jmpq rel32 *)
 Definition replace_bb_thunk_bytes (old : list Z) (thunk to : Z) : list Z :=
   patch (patch old 0 [0xe9]) 1 (le_bytes 4 (to - (thunk + 5))).
+Definition bb_thunk_size : nat := 15.
+(* _MIR_get_bb_thunk (ctx, bb_version, handler): the pattern with bb_version at offset 2 and
+   disp = (int32_t) (handler - (res + sizeof (pattern))) at offset 11 *)
+Definition get_bb_thunk_bytes (thunk bbv handler : Z) : list Z :=
+  patch (patch bb_thunk_pattern 2 (le_bytes 8 bbv)) 11 (le_bytes 4 (handler - (thunk + 15))).
+(* what the CPU does with a fresh bb thunk: r10 := imm64, then jmp rel32 -- (value of r10, target) *)
+Definition bb_thunk_exec (thunk : Z) (code : list Z) : option (Z * Z) :=
+  match code with
+  | b0 :: b1 :: i0 :: i1 :: i2 :: i3 :: i4 :: i5 :: i6 :: i7 :: j :: d0 :: d1 :: d2 :: d3 :: _ =>
+    if (b0 =? 0x49) && (b1 =? 0xba) && (j =? 0xe9)
+    then Some (of_le [i0; i1; i2; i3; i4; i5; i6; i7], u64 (thunk + 15 + s32 (of_le [d0; d1; d2; d3])))
+    else None
+  | _ => None
+  end.
 
 (* ------------------------------------------------------------------ state machine *)
 
